@@ -208,7 +208,7 @@ enum Status {
     Done,
 }
 
-const LONG: Duration = Duration::from_secs(120);
+const LONG: Duration = Duration::from_secs(90);
 
 struct Obs {
     steps: Vec<(u64, u64, u64)>,
@@ -238,6 +238,10 @@ struct Run<'a> {
     obs: Obs,
     files_seen: BTreeMap<String, Vec<u8>>,
     providers: Vec<rv::provider::ScriptedProvider>,
+    /// an actor that got the lock although the hook points say somebody else is still inside its span:
+    /// it is driven on alone so that the consequence shows (its frame lands before the owner's)
+    priority: Option<usize>,
+    attempted: std::collections::BTreeSet<String>,
     span_owner: Option<usize>, // actor between `acquired` and its release, by the hook points
     tool_running: bool,        // ... and its tool has not come back yet
 }
@@ -592,9 +596,23 @@ impl<'a> Run<'a> {
         let frames_before = if linked { self.frames_of(i) } else { 0 };
         if p.ends_with(".before_acquire") {
             let held = self.lock_presumed_held();
+            if let Some(pos) = self.holder_pos() {
+                self.attempted.insert(pos);
+            }
             self.ctl.grant(i);
-            let st = self.wait_actor(i, if held { self.settle } else { LONG }, false);
+            let st = self.wait_actor(i, if held { self.settle } else { LONG }, k.blocking());
             match st {
+                Status::Inside => {
+                    // the command is running and the actor never reported the lock
+                    self.status[i] = st;
+                    let open = open_sections(&read_markers(&self.side));
+                    if held || open.len() > 1 {
+                        self.viol("overlap", format!("actor {i} ({k:?}) started its mutating command before acquiring the workspace lock while actor {:?} held it", self.span_owner));
+                    } else {
+                        self.viol("unlocked-mutation", format!("actor {i} ({k:?}) started its mutating command before acquiring the workspace lock"));
+                    }
+                    self.push(i, 2, c);
+                }
                 Status::Parked(q) if q.ends_with(".acquired") => {
                     if held {
                         self.intrusion(i);
@@ -736,6 +754,7 @@ impl<'a> Run<'a> {
 
     fn intrusion(&mut self, i: usize) {
         self.obs.intrusions += 1;
+        self.priority = Some(i);
         let owner = self.span_owner;
         if self.tool_running || owner.map(|o| matches!(self.status[o], Status::Parked(p) if p.ends_with(".acquired"))).unwrap_or(false) {
             self.viol("overlap", format!("actor {i} ({:?}) acquired the workspace lock while actor {owner:?} was inside its lock span with its tool not finished", self.sc.actors[i].kind));
@@ -778,6 +797,33 @@ impl<'a> Run<'a> {
             let g = self.ctl.mu.lock().unwrap();
             let _ = self.ctl.cv.wait_timeout(g, Duration::from_millis(2)).unwrap();
         }
+    }
+
+    /// a blocked actor that has the lock although the presumed holder never left its span
+    fn check_blocked_arrivals(&mut self) {
+        let Some(owner) = self.span_owner else { return };
+        for j in 0..self.status.len() {
+            if self.status[j] != Status::Blocked || j == owner {
+                continue;
+            }
+            // give a wrongly released permit a moment to reach the waiter (only when someone waits)
+            let st = self.wait_actor(j, Duration::from_millis(30), false);
+            if let Status::Parked(p) = st {
+                self.status[j] = st;
+                if p.ends_with(".acquired") {
+                    self.push(j, 1, 0);
+                    self.intrusion(j);
+                    self.span_owner = Some(j);
+                    self.tool_running = false;
+                }
+                return;
+            }
+        }
+    }
+
+    /// where the presumed holder stands (an attempt is most informative at a position not tried yet)
+    fn holder_pos(&self) -> Option<String> {
+        self.span_owner.map(|o| format!("{:?}", self.status[o]))
     }
 
     fn movable(&self, i: usize) -> bool {
@@ -865,6 +911,8 @@ fn run_scenario(rt: &tokio::runtime::Runtime, ctl: &Arc<Ctl>, sc: &Scenario, set
         obs: Obs { steps: vec![], ends_linked: vec![], violations: vec![], blocked_attempts: 0, ro_overlaps: 0, intrusions: 0 },
         files_seen: BTreeMap::new(),
         providers: vec![],
+        priority: None,
+        attempted: Default::default(),
         span_owner: None,
         tool_running: false,
     };
@@ -884,7 +932,9 @@ fn run_scenario(rt: &tokio::runtime::Runtime, ctl: &Arc<Ctl>, sc: &Scenario, set
             .filter(|i| {
                 // an attempt on a held lock costs the settle time: bounded per scenario
                 match run.status[*i] {
-                    Status::Parked(p) if p.ends_with(".before_acquire") && run.lock_presumed_held() => run.obs.blocked_attempts < max_blocked,
+                    Status::Parked(p) if p.ends_with(".before_acquire") && run.lock_presumed_held() => {
+                        run.obs.blocked_attempts < max_blocked && !run.holder_pos().map(|h| run.attempted.contains(&h)).unwrap_or(false)
+                    }
                     _ => true,
                 }
             })
@@ -901,7 +951,14 @@ fn run_scenario(rt: &tokio::runtime::Runtime, ctl: &Arc<Ctl>, sc: &Scenario, set
             run.viol("stuck", format!("no actor can move: {:?}", run.status));
             break;
         }
-        let pick = if scripted {
+        if let Some(pr) = run.priority {
+            if matches!(run.status[pr], Status::Done | Status::Blocked) || matches!(run.status[pr], Status::Parked(p) if p.ends_with(".appended")) {
+                run.priority = None;
+            }
+        }
+        let pick = if let Some(pr) = run.priority.filter(|pr| cands.contains(pr)) {
+            pr
+        } else if scripted {
             if k >= sc.gos.len() {
                 cands[0]
             } else {
@@ -916,7 +973,10 @@ fn run_scenario(rt: &tokio::runtime::Runtime, ctl: &Arc<Ctl>, sc: &Scenario, set
             // favour attempts: when the lock is held, prefer starting / pushing others 2:1
             let holder = run.span_owner;
             let others: Vec<usize> = cands.iter().copied().filter(|c| Some(*c) != holder).collect();
-            if holder.is_some() && !others.is_empty() && rng.chance(2, 3) {
+            let attempts: Vec<usize> = others.iter().copied().filter(|c| matches!(run.status[*c], Status::Parked(p) if p.ends_with(".before_acquire"))).collect();
+            if holder.is_some() && !attempts.is_empty() && rng.chance(3, 4) {
+                *rng.pick(&attempts)
+            } else if holder.is_some() && !others.is_empty() && rng.chance(2, 3) {
                 *rng.pick(&others)
             } else {
                 *rng.pick(&cands)
@@ -924,6 +984,7 @@ fn run_scenario(rt: &tokio::runtime::Runtime, ctl: &Arc<Ctl>, sc: &Scenario, set
         };
         gos.push(pick);
         run.go(pick);
+        run.check_blocked_arrivals();
     }
 
     // whatever happened, let everything finish
@@ -1149,10 +1210,15 @@ fn main() {
     }
     let mut w = CaseWriter::new(&a.out, "Model.WsLockCase", "check_case", "model_obs", 50);
     let mut distinct = Distinct::default();
+    let mut stuck_runs = 0;
     for (idx, sc) in scenarios.iter().enumerate() {
+        if stuck_runs >= 3 {
+            res.notes.push(format!("stopped after scenario {idx}: three scenarios ran into the progress watchdog"));
+            break;
+        }
         let sc2 = sc.clone();
         let ctl2 = ctl.clone();
-        let out = std::panic::catch_unwind(std::panic::AssertUnwindSafe(|| run_scenario(&rt, &ctl2, &sc2, settle, 3)));
+        let out = std::panic::catch_unwind(std::panic::AssertUnwindSafe(|| run_scenario(&rt, &ctl2, &sc2, settle, 5)));
         res.evaluations += 1;
         let o = match out {
             Ok(o) => o,
@@ -1176,6 +1242,9 @@ fn main() {
         }
         let nontrivial = o.obs.blocked_attempts > 0 || o.obs.ro_overlaps > 0;
         if nontrivial && distinct.add(&format!("{:?}{:?}", sc.actors, o.gos)) {}
+        if o.obs.violations.iter().any(|(c, _)| c == "stuck") {
+            stuck_runs += 1;
+        }
         for (class, what) in &o.obs.violations {
             res.oracle_violations.push(OracleViolation { case_id: idx as i64, what: what.clone(), class: class.clone(), replay: rj.clone() });
         }
